@@ -97,6 +97,38 @@ def truth(rels, pred, v):
     return False
 
 
+def emptiness(rels, pred, v):
+    """some dominating relation says the slice / container x with pred(x) is empty (v = 1) or holds something (v = 0): the truth value
+    of `x.is_empty()`, or a comparison of `x.len()` (call or slice metadata, as slice patterns `[]` test it) with a constant"""
+    def is_len(y):
+        y = canon(y)
+        if isinstance(y, tuple) and y and y[0] == "un" and y[1] == "PtrMetadata":
+            return pred(y[2])
+        return callname(peel(y)) == "len" and pred(peel(y)[2][0])
+    for r in rels:
+        if not r:
+            continue
+        if r[0] == "truth" and callname(r[1]) == "is_empty" and pred(r[1][2][0]) and r[2] == v:
+            return True
+        if len(r) < 3 or not isinstance(r[1], tuple) or not isinstance(r[2], tuple):
+            continue
+        a, b_ = canon(r[1]), canon(r[2])
+        ca, cb = const_of(a), const_of(b_)
+        if v == 1:
+            if (r[0] in ("eq", "le") and is_len(a) and cb == 0) or (r[0] == "eq" and is_len(b_) and ca == 0) or (r[0] == "lt" and is_len(a) and cb == 1):
+                return True
+        else:
+            if r[0] == "ne" and ((is_len(a) and cb == 0) or (is_len(b_) and ca == 0)):
+                return True
+            if r[0] == "lt" and ca is not None and ca >= 0 and is_len(b_):
+                return True
+            if r[0] == "le" and ca is not None and ca >= 1 and is_len(b_):
+                return True
+            if r[0] == "eq" and ((is_len(a) and cb is not None and cb >= 1) or (is_len(b_) and ca is not None and ca >= 1)):
+                return True
+    return False
+
+
 def is_self(e):
     return peel(e) == P1
 
@@ -226,11 +258,11 @@ def run(facts):
     for bi, e, rels in alts:
         if slices(e, 0):
             seen.add(0)
-            if not truth(rels, empty_of(lambda y: slices(y, 0)), 0) and any(slices(a[1], 1) for a in alts):
+            if not emptiness(rels, lambda y: slices(y, 0), 0) and any(slices(a[1], 1) for a in alts):
                 probs.append("front slice returned without knowing it is non-empty")
         elif slices(e, 1):
             seen.add(1)
-            if not truth(rels, empty_of(lambda y: slices(y, 0)), 1):
+            if not emptiness(rels, lambda y: slices(y, 0), 1):
                 probs.append("back slice returned although the front slice may hold bytes")
         else:
             probs.append("returns %s" % fmt_expr(e)[:80])
@@ -368,7 +400,7 @@ def check_vd_vectored(res, facts, b, slices):
                     return True
             return False
         if v == 2:
-            if not truth(rels, lambda x: callname(x) == "is_empty" and slices(x[2][0], 1), 0):
+            if not emptiness(rels, lambda y: slices(y, 1), 0):
                 probs.append("returns 2 without knowing the back slice is non-empty")
             def about_dst_len(r):
                 """dst.len() != 1 / 1 < dst.len() / 2 <= dst.len() (with the non-emptiness known separately): a second slot exists"""
@@ -385,8 +417,21 @@ def check_vd_vectored(res, facts, b, slices):
                 return False
             if not any(about_dst_len(r) for r in rels) and not got_slot(1):
                 probs.append("returns 2 without knowing dst has a second slot")
+        if v == 0:
+            # "returns 0 only if dst is empty or there is nothing left" - with `a.is_empty() || b.is_empty()` the block is entered by two
+            # edges, each of which carries one of the two reasons
+            def nothing(rs):
+                return emptiness(rs, lambda y: peel(y) == P2, 1) or emptiness(rs, lambda y: is_self(y), 1) or emptiness(rs, lambda y: slices(y, 0), 1)
+            if not nothing(rels):
+                from .flow import edge_conditions, normalize_cmp, cfg_of
+                ecs = [x for x in edge_conditions(b, facts) if x[1] == bi]
+                preds = cfg_of(b).pred[bi]
+                by_edge = all(nothing(list(Ctx(b, p_, facts).rels) + [tuple(canon(y) if isinstance(y, tuple) else y for y in normalize_cmp(x[2], x[3])) for x in ecs if x[0] == p_])
+                              for p_ in preds)
+                if not (preds and by_edge):
+                    probs.append("returns 0 although neither dst nor the deque is known to be empty")
         if v in (1, 2):
-            if not truth(rels, lambda x: callname(x) == "is_empty" and peel(x[2][0]) == P2, 0) and not got_slot(0):
+            if not emptiness(rels, lambda y: peel(y) == P2, 0) and not got_slot(0):
                 probs.append("returns %d although dst may be empty" % v)
     # order: the store of the front slice dominates the store of the back slice and uses the lower index
     if not probs:
@@ -537,7 +582,7 @@ def check_default_vectored(res, facts):
         probs.append("return values %s, expected 0 / 1" % vals)
     for bi, e, rels in alts:
         if const_of(e) == 1:
-            if not truth(rels, lambda x: callname(x) == "is_empty" and peel(x[2][0]) == P2, 0):
+            if not emptiness(rels, lambda y: peel(y) == P2, 0):
                 probs.append("returns 1 although dst may be empty")
             if not truth(rels, lambda x: callname(x) == "has_remaining" and is_self(x[2][0]), 1):
                 probs.append("returns 1 although nothing may remain")
